@@ -91,6 +91,9 @@ def parseAction (s : String) : PAct :=
     | 'c' => match rest.toNat? with | some n => .act (.cancel n) | none => .bad
     | 'B' => match rest.toNat? with | some _ => .wblock | none => .bad
     | 'U' => .wblock
+    | 'P' => .wblock           -- the application pauses / resumes polling its event stream (oracle-only ops)
+    | 'R' => .wblock
+    | 'E' => .act .dropEvents
     | 'x' => .act .dropMain
     | 'e' => .act .eof
     | 'r' => match rest.toNat? with | some n => .act (.readFault n) | none => .bad
@@ -166,6 +169,8 @@ structure Facts where
   greetClean : Bool := true      -- the delivery that completed the greeting line ended with it
   verdictBad : Bool := false     -- connect's outcome is not what the delivered password verdict says
   evLowerBad : Bool := false     -- an idle reply the client must have consumed produced no events (see C04 clause)
+  evDropped : Bool := false      -- the application dropped its event receiver: no event is observable any more
+  afterGreet : Bytes := []       -- bytes delivered in actions AFTER the one that completed the greeting
   wblockSeen : Bool := false     -- write back-pressure occurred: "quiescent client has consumed everything" no longer holds
   pwReplyEnd : Option Nat := none
   writes : Bytes := []
@@ -296,7 +301,7 @@ def handle (toks : List String) (impl : String) : Verdict :=
           let now := f.delivered ++ b
           let clean := if had then f.greetClean else
             match Spec.firstLine now with | some (_, rest) => rest.isEmpty | none => true
-          { f with delivered := now, greetClean := clean }
+          { f with delivered := now, greetClean := clean, afterGreet := if had then f.afterGreet ++ b else [] }
         | .act (.both _ _ d) => { f with delivered := f.delivered ++ d }
         | .act .eof =>
           let bodyNow : Bytes := match Spec.firstLine f.delivered with | some (_, rest) => rest | none => []
@@ -309,6 +314,7 @@ def handle (toks : List String) (impl : String) : Verdict :=
         | .act (.writeFault _) => { f with faulted := true }
         | .wblock => { f with wblockSeen := true }
         | .act .dropMain => { f with dropMain := true }
+        | .act .dropEvents => { f with evDropped := true }
         | .act (.cancel r) => { f with cancelled := f.cancelled ++ [r] }
         | _ => f
       let parts := if seg == "-" then [] else seg.splitOn "&"
@@ -335,12 +341,13 @@ def handle (toks : List String) (impl : String) : Verdict :=
           let bodyNow : Bytes := match Spec.firstLine f.delivered with | some (_, rest) => rest | none => []
           -- judged only while the peer is honest (what was delivered is what the specification server wrote)
           let bad := p.startsWith "conn=ok" && password.isSome && startsWith f.sv.out bodyNow && !(startsWith bodyNow (str "OK\n"))
-          -- the verdict, decoded by the reference decoder from what was delivered after the greeting
-          -- (only when nothing was delivered together with the greeting: `connect` discards that):
+          -- the verdict, decoded by the reference decoder from what was delivered AFTER the action that
+          -- completed the greeting (the password is written when the greeting is read: bytes that
+          -- arrived together with the greeting cannot be the server's answer to it):
           -- any complete reply with an ACK is a rejection, one without is an acceptance, anything
           -- else is neither
-          let vbad := password.isSome && f.greetClean &&
-            (match Spec.refDecode (bodyNow.length + 2) {} bodyNow with
+          let vbad := password.isSome &&
+            (match Spec.refDecode (f.afterGreet.length + 2) {} f.afterGreet with
              | .resp _ (some _) :: _ => !(p.startsWith "conn=badpw")
              | .resp _ none :: _ => !(p.startsWith "conn=ok")
              | _ => p.startsWith "conn=ok" || p.startsWith "conn=badpw")
@@ -354,7 +361,7 @@ def handle (toks : List String) (impl : String) : Verdict :=
       -- it). Their `changed` names must be a prefix of the events delivered so far.
       let bodyNow : Bytes := match Spec.firstLine f.delivered with | some (_, rest) => rest | none => []
       let lowerOk :=
-        if droppedBefore || f.readEnds || f.dropMain || f.wblockSeen || password.isSome || !(startsWith f.sv.out bodyNow) then true else
+        if droppedBefore || f.readEnds || f.dropMain || f.wblockSeen || f.evDropped || password.isSome || !(startsWith f.sv.out bodyNow) then true else
         let before := (f.sv.idleReplies.filter fun r => r.1 ≤ prevBodyLen).flatMap fun r => r.2.map hex
         let firstMark := (f.sv.marks.filter fun m => m > prevBodyLen && m ≤ bodyNow.length).head?
         let extra : List String :=
@@ -437,11 +444,26 @@ def handle (toks : List String) (impl : String) : Verdict :=
           b.1.map Spec.Tok.tokenizeLine == want && isList == (names.length ≥ 2)
         if found then none else some rid
     let typedPending := typedReqs.any fun (rid, _) => pendImpl.contains (toString rid)
+    -- C05/C01: every request block the server executed is, token for token, a request some caller
+    -- issued (a raw request, the `echo` lines of a typed list, or a `readpicture`/`albumart` chunk
+    -- request for an issued URI) — nothing truncated, merged or invented reaches the server
+    let tok (l : Bytes) := Spec.Tok.tokenizeLine l
+    let strangerBlock : Bool :=
+      f.sv.blocks.any fun b =>
+        let lines := b.1.map tok
+        let isRaw := rawReqs.any fun (_, cmds) => cmds.map tok == lines
+        let isTyped := typedReqs.any fun (_, names) => names.map (fun n => some (str "echo", [n])) == lines
+        let isArt := match lines with
+          | [some (name, uri :: _ :: [])] =>
+            (name == str "readpicture" || name == str "albumart") && artReqs.any fun (_, u) => u == uri
+          | _ => false
+        !(isRaw || isTyped || isArt)
     let oracle : String :=
       if impl == "PANIC" then "fail:panic"
       else if on "C08" && f.closings > 1 then "fail:C08-more-than-one-closing-event"
       else if on "C08" && f.afterEnd then "fail:C08-activity-after-the-end"
       else if on "C05" && honest && !f.sv.violations.isEmpty then "fail:C05-line-written-while-server-idles"
+      else if (on "C05" || on "C01") && password.isNone && strangerBlock then "fail:C05-request-line-that-no-caller-issued"
       else if on "C18" && honest && !f.sv.authLines.isEmpty then "fail:C18-request-before-password-accepted"
       else if on "C18" && f.idleBeforeAuth then "fail:C18-idle-before-password-accepted"
       else if on "C18" && f.connNoAccept then "fail:C18-connected-without-the-server-accepting-the-password"
@@ -459,14 +481,14 @@ def handle (toks : List String) (impl : String) : Verdict :=
         else if on "C13" && honest && typedFramingBad.isSome then s!"fail:C13-list-not-framed-as-one-block-{typedFramingBad.getD 0}"
         else if on "C04" && startsWith f.sv.out body && !(isSubseq f.events reported) then "fail:C04-event-not-reported-by-server"
         else if on "C04" && f.evLowerBad then "fail:C04-consumed-idle-reply-produced-no-events"
-        else if on "C04" && honest && connectedOk && !f.dropMain && !eventsExact then
+        else if on "C04" && honest && connectedOk && !f.dropMain && !f.evDropped && !eventsExact then
           "fail:C04-events-differ-from-reported"
         else if on "C08" && f.faulted && connectedOk && !f.dropMain && !pendImpl.isEmpty then "fail:C08-request-never-resolved"
         else if on "C08" && malformedDelivered && connectedOk && !f.dropMain && !pendImpl.isEmpty then
           "fail:C08-request-never-resolved-after-invalid-data"
-        else if on "C08" && malformedDelivered && connectedOk && !f.dropMain && !(f.droppedSeen && f.evend && f.closedSeen) then
+        else if on "C08" && malformedDelivered && connectedOk && !f.dropMain && !(f.droppedSeen && (f.evend || f.evDropped) && f.closedSeen) then
           "fail:C08-not-closed-after-invalid-data"
-        else if on "C08" && f.readEnds && connectedOk && !f.dropMain && !(f.droppedSeen && f.evend && f.closedSeen) then
+        else if on "C08" && f.readEnds && connectedOk && !f.dropMain && !(f.droppedSeen && (f.evend || f.evDropped) && f.closedSeen) then
           "fail:C08-not-closed-after-fault"
         else if on "C08" && f.uncleanEof && connectedOk && !f.dropMain && f.cancelled.isEmpty && !(containsStr impl "proto:ueof") then
           "fail:C08-unclean-end-of-stream-not-surfaced"
@@ -474,7 +496,7 @@ def handle (toks : List String) (impl : String) : Verdict :=
             (match f.liveReadFault with | some k => !(containsStr impl s!"proto:io{k}") | none => false) then
           "fail:C08-read-error-not-surfaced"
         else if on "C08" && f.dropMain && connectedOk && !f.faulted && startsWith f.sv.out body && pendImpl.isEmpty &&
-            !(f.droppedSeen && f.evend) then "fail:C08-last-handle-dropped-but-connection-kept"
+            !(f.droppedSeen && (f.evend || f.evDropped)) then "fail:C08-last-handle-dropped-but-connection-kept"
         else if on "C05" && honest && connectedOk && !f.dropMain && !f.sv.idle then "fail:C05-not-idling-at-quiescence"
         else if on "C01" && honest && connectedOk && !f.dropMain && !pendImpl.isEmpty then "fail:C01-request-never-answered"
         else "ok"
